@@ -161,6 +161,7 @@ type FuncContract struct {
 	Consumes []string // owned parameters whose structure is taken over by the callee
 	Releases []string // owned parameters whose root node (only) is taken over by the callee
 	CallGhost map[int][]GhostArg // ghost arguments for the call with the given ordinal
+	Uses     []*Use
 }
 
 type GhostArg struct {
@@ -238,6 +239,18 @@ type Lemma struct {
 	Params   []Param
 	Requires []*Clause
 	Ensures  []*Clause
+	Uses     []*Use
+	TParams  []string
+}
+
+// Use applies a lemma: `uses name(args)` adds (requires ==> ensures) of the lemma, instantiated with
+// the arguments, to the hypotheses. In a function contract the arguments are evaluated in the entry
+// state. A lemma may use itself on a field of one of its owned parameters (structural induction).
+type Use struct {
+	Name string
+	Args []Expr
+	Pos  Pos
+	Text string
 }
 
 type TypeInv struct {
